@@ -527,7 +527,7 @@ pub fn run(args: &Args, report: &mut Report) {
     report.rule = "per preset: (a) every leaf of the default settings JSON replaced by a random finite value of its type (all enum \
         variants, null/number for options) -> from_value/to_value and to_string/from_str/to_string must be identical; (b) random valid \
         settings -> chains from original, value-round-tripped and string-round-tripped settings, same seed, 45 draws, bitwise equal; \
-        (c) sampler_settings attribute of a Zarr root == to_value(settings); (d) settings built as Rust struct literals with every field random -> Debug rendering identical after both round trips; distinct = hash of the settings text".into();
+        (c) sampler_settings attribute of the Zarr trace group (store root or a nested sub-group chosen per case) == to_value(settings); (d) settings built as Rust struct literals with every field random -> Debug rendering identical after both round trips; distinct = hash of the settings text".into();
     if let Some(r) = &args.replay {
         let preset = Preset::from_name(r["preset"].as_str().unwrap()).unwrap();
         let seed = r["seed"].as_u64().unwrap();
